@@ -480,7 +480,7 @@ static void register_magnitude_sections() {
 // non-doubling-back one with coincident control points, a thin selection of the ordinary and of
 // the cusp/looping ones, all quadratics, parametric, interpolation) are re-run at feature scales
 // {1e-2, 1, 1e2} (thorough: 1e-3 too) with the tolerance relative to the feature.
-struct ScaledBase { Vec2 start; Spec spec; };
+struct ScaledBase { Vec2 start; Spec spec; bool special = false; bool has_prefix = false; Vec2 prefix_from = {0, 0}; };
 static std::vector<ScaledBase> SBASE;
 static void init_scaled_bases() {
     auto P = [](const Vec2& v) { return P2{(LD)v.x, (LD)v.y}; };
@@ -603,6 +603,63 @@ static void register_sbends() {
                        for (int i = 1; i <= deg; i++) sc.spec.pts.push_back(sc.spec.rel ? c[i] : c[i] + o);
                        sc.tol_abs = TL[d[0]];
                        sc.tol_label = TLS[d[0]];
+                       return true;
+                   });
+}
+
+// ------------------------------------------------------------------ (M') magnitude family for polynomial sections
+// The selection of the `scaled` sub-search plus S-shaped cubics with a (nearly) centred inflection,
+// directly and as cubic_smooth / quadratic_smooth continuations, with every length multiplied by
+// 1e-9 and by 1e+9, absolute and relative, tolerance = magnitude x {1e-1,1e-2,1e-4,1e-6}.
+static std::vector<ScaledBase> MBASE;
+static void register_poly_magnitude(bool thorough) {
+    init_scaled_bases();
+    if (MBASE.empty()) {
+        static const std::vector<std::vector<Vec2>> SC3 = {{{1, 0}, {2, 0.05}, {3, -0.65}}, {{1, 0}, {2, 1}, {3, 1}}, {{1, 0}, {2, 0.5}, {3, 0.5}}, {{1, 0.1}, {2, -0.1}, {3, 0}},
+                                                          {{1, 0}, {3, 1}, {4, 1}}, {{1, 0.05}, {2, 0}, {3, -0.6}}, {{1, 0}, {2, -0.05}, {3, 0.65}}, {{0, 1}, {1, 2}, {1, 3}},
+                                                          {{1, 1}, {2, 1.05}, {3, 2.5}}, {{2, 0}, {3, 0.2}, {5, 0.2}}};
+        for (int si = 0; si < 2; si++) {
+            Vec2 st = STARTS[si];
+            for (auto& c : SC3) {
+                ScaledBase a; a.start = st; a.special = true; a.spec.kind = CUB; a.spec.pts = {st + c[0], st + c[1], st + c[2]};
+                MBASE.push_back(a);
+                ScaledBase b; b.start = st; b.special = true; b.has_prefix = true; b.prefix_from = st - c[0];   // reflected control = st + c[0]
+                b.spec.kind = CSM; b.spec.variant = 1; b.spec.pts = {st + c[1], st + c[2]};
+                MBASE.push_back(b);
+                ScaledBase q; q.start = st; q.special = true; q.has_prefix = true; q.prefix_from = st - c[0];
+                q.spec.kind = QSM; q.spec.variant = 0; q.spec.pts = {st + c[1]};
+                MBASE.push_back(q);
+            }
+        }
+        for (auto& b : SBASE) MBASE.push_back(b);
+    }
+    static const double MAGS[2] = {1e-9, 1e9};
+    static const int MAGI[2] = {4, 5};   // index into PAR_SCALES
+    static const char* MAGN[2] = {"1e-9", "1e9"};
+    static std::vector<double> REL = {1e-1, 1e-2, 1e-4, 1e-6};
+    static std::vector<std::string> RELS = {"1e-1", "1e-2", "1e-4", "1e-6"};
+    add_single_sub("poly_magnitude", fmt("magnitude family: %zu polynomial sections (S-shaped cubics with centred inflection directly and as cubic_smooth/quadratic_smooth, plus the `scaled` selection; quick: every 2nd (absolute) / 4th (relative) lattice member, every 3rd of those at 1e-6) with all lengths x {1e-9, 1e+9}, absolute and relative, tolerance = magnitude x {1e-1,1e-2,1e-4,1e-6}", MBASE.size()),
+                   {(int64_t)REL.size(), 2, 2, (int64_t)MBASE.size()}, 40,
+                   [thorough](const std::vector<int>& d, SingleCase& sc) {
+                       // d: relative tolerance, magnitude, relative coordinates, base
+                       const ScaledBase& b = MBASE[d[3]];
+                       if (!b.special && !thorough) {
+                           int step = d[2] ? 4 : 2;
+                           if (REL[d[0]] < 1e-5) step *= 3;
+                           if (d[3] % step != 0) return false;
+                       }
+                       if (d[2] && (b.spec.kind == PAR)) return false;   // parametric: its own relative flag, run once
+                       double f = MAGS[d[1]];
+                       sc.start = b.start * f;
+                       sc.spec = b.spec;
+                       if (b.spec.kind != PAR) sc.spec.rel = d[2];
+                       for (auto& q : sc.spec.pts) q = (sc.spec.rel && b.spec.kind != PAR ? q - b.start : q) * f;
+                       sc.spec.pscale = MAGI[d[1]];
+                       sc.has_prefix = b.has_prefix;
+                       sc.prefix_from = b.prefix_from * f;
+                       sc.feature_scale = f;
+                       sc.tol_abs = f * REL[d[0]];
+                       sc.tol_label = std::string(MAGN[d[1]]) + "*" + RELS[d[0]];
                        return true;
                    });
 }
@@ -845,6 +902,7 @@ int main(int argc, char** argv) {
     register_sbends();
     register_interp_oriented();
     register_magnitude_sections();
+    register_poly_magnitude(run.thorough());
     std::stable_sort(SUBS.begin(), SUBS.end(), [](const Sub& a, const Sub& b) { return a.n < b.n; });
 
     if (run.replaying()) {
